@@ -314,7 +314,9 @@ func (e *SpecEnv) field(base Val, name string) Val {
 			case *types.Struct, *types.Array:
 				cur = Val{T: vc.subRef(cur.T, t, idx), Ty: ft, Loc: true, St: st}
 			default:
-				cur = Val{T: "(select " + vc.get(st, vc.fieldVar(t, idx)) + " " + cur.T + ")", Ty: ft}
+				hv := vc.fieldVar(t, idx)
+				cur = Val{T: "(select " + vc.get(st, hv) + " " + cur.T + ")", Ty: ft}
+				vc.rangeFact(hv, cur.T)
 			}
 		} else {
 			cur = Val{T: "(" + vc.fieldSel(t, idx) + " " + cur.T + ")", Ty: ft}
@@ -605,7 +607,7 @@ func (e *SpecEnv) call(x *ast.CallExpr) Val {
 				return e.fail("typeis: unknown type")
 			}
 			return Val{T: "(= (i.tag " + v.T + ") " + vc.typeID(t) + ")", Ty: boolT}
-		case "same":
+		case "identical":
 			// bitwise identity (SMT equality), also for floats
 			a, b := e.materialize(e.eval(x.Args[0])), e.materialize(e.eval(x.Args[1]))
 			a, b = e.coerceNil(a, b)
